@@ -120,3 +120,16 @@ Proof.
   - subst. rewrite Rmult_0_r. reflexivity.
   - rewrite (sgn_pos x H), sgn_pos; [reflexivity|nra].
 Qed.
+
+Lemma atan2_quadrant1 y x : 0 <= y -> 0 <= x -> 0 <= atan2 y x <= PI / 2.
+Proof.
+  intros Hy Hx. unfold atan2. pose proof PI_RGT_0.
+  destruct (Rlt_dec 0 x) as [P|P].
+  - pose proof (atan_bound (y / x)).
+    assert (0 <= y / x) by (unfold Rdiv; apply Rmult_le_pos; [lra | left; apply Rinv_0_lt_compat; lra]).
+    assert (0 <= atan (y / x)).
+    { destruct (Req_dec (y / x) 0) as [E|E]; [rewrite E, atan_0; lra|].
+      rewrite <- atan_0. left. apply atan_increasing. lra. }
+    lra.
+  - destruct (Rlt_dec x 0); [lra|]. destruct (Rlt_dec 0 y); [lra|]. destruct (Rlt_dec y 0); lra.
+Qed.
